@@ -175,8 +175,11 @@ def grid_model(eng, gate, extra=()):
         if z3.is_rational_value(v): continue
         n = z3.Int(f'grid{j}')
         cons.append(v * 8 == n)
+    if getattr(eng, 'failed_claim', None) is not None: extra = list(extra) + [eng.failed_claim]
     r = eng.solver.check(*cons, *extra)
-    if r != z3.sat: return None
+    if r != z3.sat:
+        if extra and eng.solver.check(*extra) == z3.sat: return eng.solver.model()
+        return None
     return eng.solver.model()
 
 
